@@ -1,5 +1,4 @@
-"""Per-property configuration of the monitors: shard budgets (in cases, per shard), legs, evidence rule.
-Regenerated by edits through python (literal dump); edit freely."""
+"""Per-property configuration of the monitors: shard budgets (in cases, per shard), legs, evidence rule."""
 
 DOMAIN = 'inputs generated on an exactly representable dyadic lattice (offset up to 2^40, scale 2^-30..2^30); oracle = exact i128 rational arrangement (harness/src/model.rs), independent of geo'
 
@@ -196,6 +195,41 @@ PROPS = {
                            {'kind': 'miri',
                             'args': ['run', 'C10', '--seed', '{seed}', '--shard', '0', '--nshards', '1', '--tier', 'quick', '--budget', '5', '--out', '{out}'],
                             'timeout': 5400}]}},
+    'C11': {'budget': {'quick': 8000000, 'thorough': 150000000},
+     'rule': 'A case is a pure function of (seed, shard, k): one ordered pair of f64 segments (p, q); every case is evaluated as line_intersection(p,q) AND '
+             "line_intersection(q,p) plus p.intersects(q) / q.intersects(p). Every fourth case index walks the exhaustive sub-space 'all ordered segment pairs on "
+             "a 5x5 lattice' (7x7 in thorough; 390 625 / 5 764 801 pairs split over the shards, lattice offset and power-of-two scale drawn from the seed); the "
+             'others are drawn from these strata (per 34): coincidence-rich small lattices (side 2..16) under an axis-wise affine map with offsets up to 2^52-20, '
+             'two different power-of-two scales and signed zeros (3); proper crossings at a lattice point / near the midpoint / generic (3); shared end points '
+             'incl. almost collinear continuation (2); T-junctions (3); the seven collinear configurations disjoint / abutting / partial overlap / strictly '
+             'contained / contained sharing the start / sharing the end / equal on exactly collinear families a + t d with coordinates up to 2^52, 1 in 5 with one '
+             'coordinate moved by an ulp (5); nearly parallel pairs a few lattice units or ulps apart, on the same or on opposite sides (4); zero-length segments: '
+             'point in the interior / at an end point / collinear outside / beside the segment / anywhere / two equal points / two different points (2); '
+             'near-touch: shared end point, T-junction or crossing-at-an-end with coordinates moved by 1-3 ulps (3); thin bounding boxes (2); full 53-bit '
+             'mantissas: points rounded onto a segment, crossings, random, mixed exponents (3); random control (1); exponent spreads of up to 500 binary digits on '
+             'lines through the origin (2); observe-only extreme exponents 2^+-330..1000 (1). Every lattice core is used in both orders and both directions '
+             '(random role swap and flips), half of the cores use 52-bit coordinates, a third of the smaller ones get a common offset up to 2^52, 40 % are '
+             'multiplied by a common power of two (2^-30..30, 1 in 10 anywhere in 2^-300..300). Each result is judged clause by clause (classify, '
+             'classify.is_proper_method, collinear.segment, improper.endpoint, proper.envelope, proper.accuracy, agrees.intersects, order.independence, panic) '
+             'against four exact orientation signs (i128, or arbitrary-precision integers when the set bits span more than 60 binary digits) and exact f64 '
+             'coordinate comparisons. Non-trivial = the closed bounding boxes of p and q intersect (the envelope rejection does not decide the case; at least the '
+             'robust orientation stage is reached); distinct = distinct FNV digest of the eight coordinate bit patterns in order (p.start, p.end, q.start, q.end), '
+             'merged over shards (each shard keeps at most 4 000 000 digests).',
+     'assumptions': ['finite f64 coordinates whose set bits lie within binary exponents [-305, 300): no product of three coordinate differences over- or '
+                     'underflows in raw_line_intersection and the adaptive orientation predicate does not underflow (outside: observe-only stratum, crashes only; '
+                     'the underflow of orient2d is the recorded C03 finding orient2d_underflow)',
+                     'proper.accuracy is judged as |got - X|_inf <= 32 u (M + E kappa) with M = largest |coordinate|, E = largest bounding-box side, kappa = '
+                     '|p||q|/|p x q|, and only for kappa <= 1024; for nearly parallel pairs (kappa > 1024) only classification, envelope, intersects and order '
+                     'clauses are judged (the error is recorded as a maximum, not judged)',
+                     'order.independence compares the classification, the improper point and the overlap (up to direction) numerically (two end points at one '
+                     "position may differ in the sign of a zero); the computed proper point is not part of that clause (the statement lists only 'the "
+                     "classification, and any endpoint or overlap returned')",
+                     'a zero-length segment has no interior: a shared point with a zero-length segment is expected as SinglePoint{is_proper: false}',
+                     'the nearest_endpoint fallback and the two ways into it are not observable without a hook; reach is inferred from the result (a proper point '
+                     'that is a bit copy of an input end point)'],
+     'min_nontrivial': {'quick': 20000000, 'thorough': 40000000},
+     'technique': 'runtime monitoring: exact integer oracle (i128 / arbitrary precision) over observed results of line_intersection and Line::intersects, '
+                  'exhaustive small-lattice sub-space, both argument orders'},
     'C12': {'required_probes': ['interior_point.y_perturbed'],
      'budget': {'quick': 25000, 'thorough': 600000},
      'rule': 'per case one generated geometry of any type (half of them polygons with holes / tangent holes / multipolygons, 1 in 10 a sliver of height 1 and '
